@@ -4,13 +4,45 @@
    (Model/Spelling.v) compares the visitor model's results up to lines.  The rewrites are FUNCTIONS on
    parse trees (the rw_ functions), mirrored on the text by the harness, which checks on every run that the real
    compiler's six outputs are byte-identical for both texts and that removing an attribute changes
-   only its own field.  PARTIAL: proved are the alias tables (every long spelling normalises to
-   the type of its short one); the per-rewrite preservation of `visit` is evaluated, not proved.
+   only its own field.  PROVED (Proofs/NormGen.v): each of the six generator models (the models that
+   are compared with the real generators' output on every run) looks at its input only through
+   norm_bmodel (normalised type names, the padding that takes effect), for EVERY model; hence two
+   visitor results with same_meaning = true yield identical code for every target.  PARTIAL: that the
+   listed rewrites preserve `visit` up to same_meaning is evaluated on every run, not proved; proved
+   are the alias tables (every long spelling normalises to the type of its short one).
    The full statement is FALSE of the faithful model on the witnesses below (recorded findings
    visitor-C08): shared MetaData attribute objects, the bare default pad character, mixed key lists. *)
-From FP Require Import PT Flatten Visitor VisitorShow Faults NoPanic Spelling VisitorWitnesses VisitorProofs.
+From FP Require Import PT Flatten Visitor VisitorShow Faults NoPanic Spelling VisitorWitnesses VisitorProofs Go Py Cpp Rust Java Lua Frag NormGen.
 From Coq Require Import String List NArith.
 Import ListNotations.
+
+(* every generator model factors through the normalised model *)
+Theorem C08_generators_see_only_the_normalised_model :
+  forall M, gen_go (norm_bmodel M) = gen_go M /\ gen_py (norm_bmodel M) = gen_py M /\ gen_cpp (norm_bmodel M) = gen_cpp M /\
+            gen_rust (norm_bmodel M) = gen_rust M /\ gen_java (norm_bmodel M) = gen_java M /\ gen_lua (norm_bmodel M) = gen_lua M.
+Proof.
+  intro M. repeat split; [apply gen_go_norm|apply gen_py_norm|apply gen_cpp_norm|apply gen_rust_norm|apply gen_java_norm|apply gen_lua_norm].
+Qed.
+Print Assumptions C08_generators_see_only_the_normalised_model.
+
+(* same meaning => same code, for the five codec targets (l) and the Lua dissector, whatever strcase table both sides get *)
+Theorem C08_same_meaning_same_code_thm : forall l names a b,
+  same_meaning a b = true ->
+  gen_of l (to_bmodel_names names a) = gen_of l (to_bmodel_names names b).
+Proof. exact C08_same_meaning_same_code. Qed.
+Print Assumptions C08_same_meaning_same_code_thm.
+
+Theorem C08_same_meaning_same_code_lua_thm : forall names a b, same_meaning a b = true ->
+  gen_lua (to_bmodel_names names a) = gen_lua (to_bmodel_names names b).
+Proof. exact C08_same_meaning_same_code_lua. Qed.
+Print Assumptions C08_same_meaning_same_code_lua_thm.
+
+(* same_meaning is exactly equality of the normalised models up to the strcase table *)
+Theorem C08_same_meaning_is_equal_normalised_model : forall names a b,
+  same_meaning a b = true ->
+  norm_bmodel (to_bmodel_names names a) = norm_bmodel (to_bmodel_names names b).
+Proof. exact same_meaning_same_norm. Qed.
+Print Assumptions C08_same_meaning_is_equal_normalised_model.
 
 Theorem C08_alias_same_type s : norm_ty (long_of (short_of s)) = norm_ty (short_of s).
 Proof. exact (alias_same_type s). Qed.
